@@ -95,6 +95,7 @@ class C16(Prop):
         for t in range(4000 * f):
             yield {"k": "align", "what": "clifford2" if t % 4 else "pair", "n": 2 if t % 8 else 1, "seed": base + 5000 + t, "pkg": "py"}
         yield {"k": "birthday", "n": 3, "M": 6000, "seed": base + 9}
+        yield {"k": "bigbirthday", "n": 5, "M": 200000, "seed": base + 10, "pkg": "py"}
         # larger registers: the image of X_1 / Z_1 under a uniform Clifford is a uniform non-identity string, so every
         # letter appears on every qubit in a quarter of the samples (up to 4^-N); per-qubit letter tallies
         for n in (7, 33, 40, 66):
@@ -200,6 +201,12 @@ class C16(Prop):
                         signs[1 if w[-1] == 2 else 0] += 1
                 return [{"op": "marginal", "name": scn["name"], "n": n, "M": M, "cnt": cnt, "exact": bool(scn.get("exact"))},
                         {"op": "fair", "name": "random_clifford_map signs n=%d" % n, "c0": signs[0], "c1": signs[1]}]
+            if k == "bigbirthday":
+                be.seed(scn["seed"])
+                seen = set()
+                for t in range(scn["M"]):
+                    seen.add(be.utils.random_clifford(scn["n"]).tobytes())      # the symplectic table itself
+                return [{"op": "bigbirthday", "n": scn["n"], "M": scn["M"], "distinct": len(seen), "collisions": scn["M"] - len(seen)}]
             if k == "coin":
                 be.seed(scn["seed"])
                 c = [0, 0]
